@@ -123,17 +123,20 @@ AnswerAll(fr, an, rs, items, k) ==
   IF k > Len(items) THEN [fr |-> fr, an |-> an, rs |-> rs]
   ELSE LET x == Answered(fr, an, rs, items[k]) IN AnswerAll(x.fr, x.an, x.rs, items, k + 1)
 
+Unreadable == {"unknown_ctor", "truncated", "empty_body", "code404", "garbage_frame", "short_frame"}
 SrvSend ==
   /\ Is("SrvSend")
   /\ LET t == Ev
-         items == IF t.t = "result" THEN <<[sid |-> t.sid, content |-> t.content, req |-> t.req, val |-> t.val]>>
+         items == IF t.t = "result" THEN <<[sid |-> t.sid, content |-> t.content, req |-> t.req, val |-> t.val, what |-> ""]>>
                   ELSE IF t.t = "container" THEN t.items ELSE <<>>
          x == AnswerAll(frames, ans, resend, items, 1)
          newContent == (IF t.content THEN {t.sid} ELSE {}) \cup {items[k].sid : k \in {j \in 1..Len(items) : items[j].content}}
      IN /\ frames' = x.fr /\ ans' = x.an /\ resend' = x.rs
         /\ toAck' = toAck \cup newContent /\ sentIds' = sentIds \cup newContent
         /\ wantSalt' = IF t.t = "badsalt" \/ (t.t = "push" /\ t.newsalt > 0) THEN t.newsalt ELSE wantSalt
-        /\ judgeAcks' = (judgeAcks /\ ~(t.t = "push" /\ t.what \in {"unknown_ctor", "truncated", "empty_body", "code404", "garbage_frame", "short_frame"}))
+        \* whether a body the client cannot read must be acknowledged is left open
+        /\ judgeAcks' = (judgeAcks /\ ~(t.t = "push" /\ t.what \in Unreadable)
+                                   /\ ~(\E k \in 1..Len(items) : items[k].what \in Unreadable))
         /\ updates' = IF t.t = "push" /\ t.what \in {"api_object", "update_short", "gzip_update"} THEN updates + 1 ELSE updates
   /\ UNCHANGED <<sc, lastId, lastSeq, open, stored, alive, bad>>
 
